@@ -17,4 +17,29 @@ PROPS = {
         ],
         "assumptions": COMMON_ASSUME + ["response headers are not part of the compared observables (the property speaks of status code and body bytes)"],
     },
+    "C01": {
+        "props": "Props/C01.v", "exec": ["Exec/SchemaExec.v"],
+        "n_quick": 2500, "n_thorough": 60000,
+        "theorem": "C01_visit_iff_sat",
+        "theorems": ["C01_visit_iff_sat", "C01_refuted_isempty_shortcut", "C01_refuted_isempty_shortcut_null_member",
+                     "C01_refuted_exclusive_without_bound", "C01_refuted_unique_negzero", "C01_refuted_huge_bound",
+                     "C01_refuted_multipleof_zero", "C01_refuted_bad_pattern_multi", "C01_hyps_satisfiable"],
+        "technique": "Coq proof by nested structural induction on the schema (visit = satb under named guards, no panic) + Go/model/spec three-way correspondence by vm_compute",
+        "level_text": "C01_visit_iff_sat: for every regexp/format oracle, every mode, every tree schema of any depth and every JSON value meeting the named executable guards, the Gallina model of visitJSON does not panic and accepts iff the value satisfies the compositional keyword-by-keyword specification satb. Each guard has a machine-checked refuted witness that is a finding on the real code. The model is compared with VisitJSON (3 modes) and with satb on directed boundary tables + seeded random schema/value pairs every run.",
+        "level_note": "Trusted: Coq kernel + vm_compute, primitive floats (Print Assumptions lists only PrimFloat constants), regexp and format validators as oracles evaluated with Go's regexp / the registered validators, harness printer. Not modelled: $ref cycles (tree schemas), discriminator, default injection, json.Number/int inputs (C05 covers decoded ints).",
+        "trusted_base": ["regexp compile/match and format validators are Section-variable oracles; the harness supplies their finite fragment per case using Go's regexp package and the registered validators outside visitJSON",
+                         "numbers are Coq primitive binary64 floats; float literals cross as hexadecimal"],
+        "assumptions": COMMON_ASSUME + ["schemas are trees built directly as *openapi3.Schema (no loader)", "guards: g_all (IsEmpty shortcut only on childless schemas, exclusive flags have bounds, bounds < 2^63, patterns compile, property keys unique), vg (finite numbers, no 0/-0 clash under uniqueItems, unique object keys), g_div (no NaN quotient)"],
+    },
+    "C12": {
+        "props": "Props/C12.v", "exec": ["Exec/SchemaExec.v"],
+        "n_quick": 2500, "n_thorough": 60000,
+        "theorem": "C12_verdict_mode_indep",
+        "theorems": ["C12_verdict_mode_indep", "C12_leaf_checks_mode_indep", "C12_refuted_bad_pattern"],
+        "technique": "Coq proof (corollary of the C01 induction: same verdict in all modes) + Go/model comparison of verdicts, error fields, JSON pointers and quoted values + direct pointer oracle",
+        "level_text": "C12_verdict_mode_indep: under the C01 guards the model's verdict is identical in default, fail-fast and multi-error modes and never a panic, formats and patterns included via oracles. Every run compares, per case, the three Go verdicts and IsMatching with the model, the (SchemaField, JSON pointer, quoted value) of every returned schema error with the model's error list, and checks each Go error's pointer against the validated value directly.",
+        "level_note": "The pointer/quoted-value half of the property is decided by the direct oracle + model comparison on sampled inputs (theorem for it not yet proved: stated in DESIGN.md as C12_pointer_resolves, pending). Discriminator not modelled.",
+        "trusted_base": ["same oracles as C01"],
+        "assumptions": COMMON_ASSUME + ["message customisers are not inputs of the model's visit (they cannot influence it by construction)"],
+    },
 }
